@@ -241,7 +241,12 @@ class _Continue(Exception):
     pass
 
 
-def exec_function(it: "ModelInterp", fn: ast.FunctionDef, bind: Dict[str, Any]) -> Any:
+class _Until(Exception):
+    def __init__(self, env):
+        self.env = env
+
+
+def exec_function(it: "ModelInterp", fn: ast.FunctionDef, bind: Dict[str, Any], until: Optional[Callable[[ast.stmt], bool]] = None) -> Any:
     """The value a (small, loop-free or for-loop) function body returns over the model: statements executed in order
     on an environment of model values - assignments, conditionals, for loops over model sequences, try / except by
     exception name, mutation of local containers.  Anything else is DTop (undecided), never a guess."""
@@ -277,6 +282,8 @@ def exec_function(it: "ModelInterp", fn: ast.FunctionDef, bind: Dict[str, Any]) 
 
     def run(stmts):
         for st in stmts:
+            if until is not None and until(st):
+                raise _Until(env)  # the environment in force when this statement is reached
             if isinstance(st, ast.Expr):
                 if isinstance(st.value, ast.Constant):
                     continue
@@ -338,6 +345,8 @@ def exec_function(it: "ModelInterp", fn: ast.FunctionDef, bind: Dict[str, Any]) 
         run(fn.body)
     except _Return as r:
         return r.value
+    except _Until as r:
+        return r.env
     return None
 
 
@@ -363,6 +372,7 @@ class ModelInterp(Interp):
     def __init__(self, atoms, names: Optional[Dict[str, Any]] = None):
         super().__init__(atoms, self._call)
         self.names = names or {}
+        self.methods = None  # name -> FunctionDef of a helper method of the modelled class (called with model arguments)
         self.members = None  # name -> FunctionDef of a property of the modelled object (evaluated over the model on demand)
         self._member_cache: Dict[str, Any] = {}
 
@@ -551,6 +561,24 @@ class ModelInterp(Interp):
             raise DTop(f"call {f.id}")
         if isinstance(f, ast.Attribute):
             m = f.attr
+            if isinstance(f.value, ast.Name) and f.value.id in ("self", "cls") and getattr(self, "methods", None) is not None:
+                fn = self.methods(m)
+                if fn is not None:
+                    # a helper method of the modelled class: its body over the model, parameters bound
+                    params = [a.arg for a in fn.args.posonlyargs + fn.args.args]
+                    if params and params[0] in ("self", "cls"):
+                        params = params[1:]
+                    vals = [self.ev(a) for a in c.args]
+                    bind = dict(zip(params, vals))
+                    bind.update({k.arg: self.ev(k.value) for k in c.keywords if k.arg})
+                    defaults = dict(zip(params[len(params) - len(fn.args.defaults):], fn.args.defaults))
+                    for p_ in params:
+                        if p_ not in bind:
+                            if p_ not in defaults:
+                                raise DTop("unbound parameter " + p_)
+                            bind[p_] = self.ev(defaults[p_])
+                    inner = self._sub({})
+                    return exec_function(inner, fn, bind)
             if m == "fromkeys" and u(f.value) in ("dict", "collections.OrderedDict", "OrderedDict"):
                 args = [self.ev(a) for a in c.args]
                 return {k: (args[1] if len(args) > 1 else None) for k in args[0]}
